@@ -928,7 +928,7 @@ class Vector():
 	def _unary_operation(self, op_func, op_name: str):
 		"""Helper function to handle unary operations on each element."""
 		return Vector(
-			tuple(op_func(x) for x in self),
+			tuple(None if x is None else op_func(x) for x in self),
 			dtype=self._dtype,
 			name=self._name,
 			as_row=self._display_as_row
